@@ -88,10 +88,19 @@ func (fs *FileSystemOperation) Restore() error {
 		return err
 	}
 
-	// We iterate over the diff and restore the files that have changed.
-	for path, content := range fileSystemSnapshot.GetDiff(fs.backUp.dataMD5) {
+	// Files that were changed or removed since the backup get their backed-up content back.
+	for path, content := range fs.backUp.GetDiff(fileSystemSnapshot.dataMD5) {
 		if err := fs.storeFileOnDisk(path, content); err != nil {
 			return err
+		}
+	}
+
+	// Files that did not exist when the backup was taken are removed.
+	for path := range fileSystemSnapshot.data {
+		if _, existed := fs.backUp.data[path]; !existed {
+			if err := fs.cleanUpFile(path); err != nil {
+				return err
+			}
 		}
 	}
 
